@@ -175,6 +175,29 @@ func hashtrieRules(r *core.Run, id string) {
 	})
 	r.Check(id+".H2", core.Key(id+".H2", wf, "entry span = data[i:i+8], summed"), wf.Pos(), okSpan && spanSum != nil,
 		"each entry's span is read from its first 8 bytes and summed", "the span of an entry is not read from data[i:i+8] (where writeToLevel put it) and accumulated")
+	// the sum starts at 0 and takes every entry: the accumulator's only incoming values are
+	// the constant 0 and accumulator+span, and the addition runs on every iteration
+	okAcc := false
+	if phi, ok := spanSum.(*ssa.Phi); ok {
+		okAcc = true
+		for _, e := range phi.Edges {
+			if k, isC := core.ConstInt(e); isC && k == 0 {
+				continue
+			}
+			add, isAdd := e.(*ssa.BinOp)
+			if !isAdd || add.Op != token.ADD || add.X != ssa.Value(phi) {
+				okAcc = false
+				continue
+			}
+			for be := range core.BackEdges(wf) {
+				if be.To == phi.Block() && !(add.Block() == be.From || add.Block().Dominates(be.From)) {
+					okAcc = false
+				}
+			}
+		}
+	}
+	r.Check(id+".H2", core.Key(id+".H2", wf, "span sum starts at 0 and takes every entry"), wf.Pos(), okAcc,
+		"the intermediate chunk's span is 0 plus the span of every entry of the level", "the span accumulator of wrapFullLevel has another starting value or skips entries (e.g. branching × the first child's span for a full level): a level whose last child is a short tail chunk gets a span larger than its subtree")
 	r.Check(id+".H2", core.Key(id+".H2", wf, "entry reference = data[i+8:i+refSize+8]"), wf.Pos(), okHash,
 		"each entry's reference is the refSize bytes after its span", "the reference of an entry is not data[i+8:i+h.refSize+8]")
 	// emitted chunk: Data = append(spb, hashes...), Span = spb, PutUint64(spb, sum)
